@@ -5,6 +5,8 @@ package main
 // process - the registry is process-global), and records free-running goroutines.
 
 import (
+	"time"
+	"sync/atomic"
 	"bufio"
 	"bytes"
 	"encoding/json"
@@ -405,6 +407,7 @@ func drvRegConc(c *ctx) error {
 				return err
 			}
 			c.w.Write(ob)
+			atomic.StoreInt64(&wd.lastEmit, time.Now().UnixNano()) // a child finished: progress (each child has its own watchdog)
 			return nil
 		}
 		if c.mode == "cases" {
